@@ -113,6 +113,65 @@ Proof.
     split; [lia|]. rewrite <- H3. exact R2.
 Qed.
 
+(* out-trees: the same without symmetry - one-way links allowed.  What the propagation needs is that the
+   parts of the graph explored through two different partners of a trait do not meet. *)
+Record otree (st : state) : Prop := mkOTree {
+  ot_disjoint : forall u p1 p2 y, edge st u p1 -> edge st u p2 -> p1 <> p2 -> p1 <> u -> p2 <> u ->
+                                  reachA st (fun z => z = u) p1 y -> reachA st (fun z => z = u) p2 y -> False;
+  ot_nodup : forall u ps, partners st (fst u) (snd u) = Some ps -> NoDup ps;
+  ot_hooked : forall u ps, partners st (fst u) (snd u) = Some ps -> is_list_name (snd u) = true ->
+                           has (snd u) (o_att_i (get_obj st (fst u))) = true;
+  ot_kind : forall u y, edge st u y -> is_list_name (snd y) = is_list_name (snd u);
+  ot_range : forall u y, edge st u y -> in_range st y
+}.
+
+Lemma tree_otree st : tree st -> otree st.
+Proof.
+  intros [T1 T2 T3 T4 T6 T5]. split; try assumption.
+  intros u p1 p2 y H1 H2 Hne _ Hp2 R1 R2.
+  apply (T2 u p1 p2 H1 H2 Hne).
+  eapply reachA_trans; [exact R1|]. apply reachA_rev; [exact T1|exact Hp2|exact R2].
+Qed.
+
+Lemma otree_transfer s t :
+  (forall p m, partners s p m = partners t p m) ->
+  (forall p, o_att_i (get_obj s p) = o_att_i (get_obj t p)) ->
+  (forall y, in_range s y -> in_range t y) ->
+  otree s -> otree t.
+Proof.
+  intros Hst Hatt Hrng [T2 T3 T4 T6 T5].
+  assert (forall p m, partners t p m = partners s p m) as Hts by (intros; symmetry; apply Hst).
+  split.
+  - intros u p1 p2 y H1 H2 Hne N1 N2 R1 R2. apply (T2 u p1 p2 y); try assumption;
+      [apply (edge_partners t s _ _ Hts); exact H1|apply (edge_partners t s _ _ Hts); exact H2|
+       apply (reachA_partners t s _ _ _ Hts); exact R1|apply (reachA_partners t s _ _ _ Hts); exact R2].
+  - intros u ps Hp. apply (T3 u). rewrite Hst. exact Hp.
+  - intros u ps Hp Hk. rewrite <- Hatt. apply (T4 u ps); [rewrite Hst; exact Hp|exact Hk].
+  - intros u y He. apply (T6 u). apply (edge_partners t s _ _ Hts). exact He.
+  - intros u y He. apply Hrng. apply (T5 u). apply (edge_partners t s _ _ Hts). exact He.
+Qed.
+
+Lemma otree_frame s t : same_frame s t -> otree s -> otree t.
+Proof.
+  intros F. apply otree_transfer.
+  - intros; apply partners_frame; exact F.
+  - intros p. destruct F as [_ Fo]. destruct (Fo p) as (_ & _ & _ & _ & H5 & _). exact H5.
+  - intros y. apply in_range_frame. exact F.
+Qed.
+
+Lemma otree_lock st o n : otree st -> otree (lock st o n).
+Proof.
+  apply otree_transfer.
+  - intros. symmetry. apply partners_lock.
+  - intros p. unfold lock. destruct (Nat.eq_dec o p) as [<-|Hne].
+    + destruct (Nat.lt_ge_cases o (length (objs st))) as [Hlt|Hge].
+      * rewrite get_obj_upd_same by exact Hlt. reflexivity.
+      * unfold upd_obj, get_obj. cbn [objs]. rewrite update_oob by exact Hge. reflexivity.
+    + rewrite get_obj_upd_other by exact Hne. reflexivity.
+  - intros y [R1 R2]. destruct (same_tables_lock st o n) as [L T]. destruct (T (fst y)) as (_ & _ & H3).
+    split; [lia|]. rewrite <- H3. exact R2.
+Qed.
+
 (* ---------- locks ---------- *)
 Lemma has_add1_self n l : has n (add1 n l) = true.
 Proof.
@@ -161,12 +220,12 @@ Section Tree.
     (* the state when the handler of x starts walking its partners: x is locked (st2), tables are st's *)
     Variables (f : nat) (st st2 : state) (x : node) (ev : event).
     Hypothesis IH : forall s o n ev',
-      tree s -> overflow s = false -> lockedb s o n = false -> (Phi s < f)%nat -> in_range s (o, n) ->
+      otree s -> overflow s = false -> lockedb s o n = false -> (Phi s < f)%nat -> in_range s (o, n) ->
       is_list_name n = true -> replays ev' ->
       (forall y, region s (o, n) y -> y <> (o, n) -> val s y = VL L) ->
       tpost s (forward f s o n ev') (o, n).
-    Hypothesis T : tree st.
-    Hypothesis T2 : tree st2.
+    Hypothesis T : otree st.
+    Hypothesis T2 : otree st2.
     Hypothesis Hpart2 : forall p m, partners st2 p m = partners st p m.
     Hypothesis HPhi2 : (Phi st2 < f)%nat.
     Hypothesis Hev : replays ev.
@@ -183,13 +242,14 @@ Section Tree.
       (forall y, val s y = val st y \/ exists q, In q done /\ ~ B2 q /\ reachA st B2 q y).
 
     Lemma disjoint p q y :
-      edge st x p -> edge st x q -> p <> q -> ~ B2 q ->
+      edge st x p -> edge st x q -> p <> q -> ~ B2 p -> ~ B2 q ->
       reachA st B2 p y -> reachA st B2 q y -> False.
     Proof.
-      intros Hp Hq Hne Bq Rp Rq.
-      assert (reachA st B2 y q) as Rb by (apply reachA_rev; [apply T|exact Bq|exact Rq]).
-      apply (t_acyclic _ T x p q Hp Hq Hne).
-      apply (reachA_weaken st B2); [intros z ->; exact HB2x|]. eapply reachA_trans; eassumption.
+      intros Hp Hq Hne Bp Bq Rp Rq.
+      assert (forall z, z = x -> B2 z) as Hx by (intros z ->; exact HB2x).
+      apply (ot_disjoint _ T x p q y Hp Hq Hne); [intros ->; apply Bp; exact HB2x|intros ->; apply Bq; exact HB2x| |].
+      - apply (reachA_weaken st B2); [exact Hx|exact Rp].
+      - apply (reachA_weaken st B2); [exact Hx|exact Rq].
     Qed.
 
     Lemma fold_tree : forall todo done s,
@@ -242,7 +302,7 @@ Section Tree.
               apply (reachA_weaken st B2); [exact Hblk|exact Ry].
             - destruct (reachA_end _ _ _ _ Ry) as [->|Hy]; [exact Hqx|]. intros ->. apply Hy. exact HB2x. }
           assert (in_range s q) as Rq.
-          { eapply in_range_frame; [exact Fs|]. apply (t_range _ T2 x).
+          { eapply in_range_frame; [exact Fs|]. apply (ot_range _ T2 x).
             destruct Heq as (ps & Hp & Hin). exists ps. rewrite Hpart2. auto. }
           pose proof (HoldL q (rA_refl _ _ _)) as Vq. unfold val in Vq. subst q. cbn [fst snd] in Vq. rewrite Vq.
           set (q := (p, pn)) in *.
@@ -297,12 +357,12 @@ Section Tree.
             destruct (reemitted_event_replays L ev L' ev' Hidx Hap) as [Hidx' [oev' Hap']].
             assert (tpost s' (forward f s' p pn ev') q) as (O'' & F'' & Hb'' & Hc'').
             { apply IH.
-              - eapply tree_frame; [exact Fs'|]. eapply tree_frame; eassumption.
+              - eapply otree_frame; [exact Fs'|]. eapply otree_frame; eassumption.
               - exact Hov.
               - rewrite <- (lockedb_frame _ _ p pn Fs'). exact Hl.
               - rewrite <- (Phi_frame _ _ Fs'), <- (Phi_frame _ _ Fs). exact HPhi2.
               - eapply in_range_frame; eassumption.
-              - rewrite <- Hxlist. apply (t_kind _ T x (p, pn)). exact Heq.
+              - rewrite <- Hxlist. apply (ot_kind _ T x (p, pn)). exact Heq.
               - split; [exact Hidx'|exists oev'; exact Hap'].
               - intros y R Hyq. rewrite Vo' by exact Hyq. apply HoldL. apply Hreg1. exact R. }
             apply Hclose; assumption.
@@ -318,7 +378,7 @@ Section Tree2.
   Variables L L' : list Z.
 
   Theorem forward_spread : forall f st o n ev,
-    tree st -> overflow st = false -> lockedb st o n = false -> (Phi st < f)%nat -> in_range st (o, n) ->
+    otree st -> overflow st = false -> lockedb st o n = false -> (Phi st < f)%nat -> in_range st (o, n) ->
     is_list_name n = true -> replays L L' ev ->
     (forall y, region st (o, n) y -> y <> (o, n) -> val st y = VL L) ->
     tpost L' st (forward f st o n ev) (o, n).
@@ -336,7 +396,7 @@ Section Tree2.
         eapply noedge. exact He.
       - intros y. left. reflexivity. }
     destruct (has n (o_att_i (get_obj st1 o))) eqn:Hatt.
-    2:{ apply Hquiet. intros q (ps & Hp & _). pose proof (t_hooked _ T (o, n) ps Hp Hkind) as Ha.
+    2:{ apply Hquiet. intros q (ps & Hp & _). pose proof (ot_hooked _ T (o, n) ps Hp Hkind) as Ha.
         cbn [fst snd] in Ha. change (get_obj st1 o) with (get_obj st o) in Hatt. congruence. }
     destruct (partners st1 o n) as [ps|] eqn:Hps.
     2:{ apply Hquiet. intros q (ps & Hp & _). cbn [fst snd] in Hp. rewrite Hp1 in Hps. congruence. }
@@ -344,13 +404,13 @@ Section Tree2.
     assert (lockedb st1 o n = false) as Hl1 by exact Hl.
     assert (Phi st2 < f)%nat as HPhi2.
     { pose proof (Phi_lock_lt st1 o n Hl1 ltac:(rewrite Hatt; apply orb_true_r)). rewrite <- (Phi_frame _ _ F1) in H. unfold st2. lia. }
-    assert (tree st2) as T2 by (apply tree_lock; eapply tree_frame; eassumption).
+    assert (otree st2) as T2 by (apply otree_lock; eapply otree_frame; eassumption).
     assert (forall p m, partners st2 p m = partners st p m) as Hpart2 by (intros; unfold st2; rewrite partners_lock; apply Hp1).
     assert (forall z, locked st2 z = true -> blocked st (o, n) z) as HB2.
     { intros z Lz. apply locked_lock in Lz. destruct Lz as [->|Lz]; [right; reflexivity|left; exact Lz]. }
     assert (forall z, blocked st (o, n) z -> locked st2 z = true) as Hblk.
     { intros z [Lz| ->]; [apply locked_lock_mono; exact Lz|]. apply locked_lock_self. apply Hr. }
-    assert (NoDup ([] ++ ps)) as Hnd by (apply (t_nodup _ T (o, n)); cbn [fst snd]; rewrite <- Hp1; exact Hps).
+    assert (NoDup ([] ++ ps)) as Hnd by (apply (ot_nodup _ T (o, n)); cbn [fst snd]; rewrite <- Hp1; exact Hps).
     assert (forall q, In q ([] ++ ps) -> edge st (o, n) q) as Hedges.
     { intros q Hin. exists ps. cbn [fst snd]. rewrite <- Hp1. auto. }
     assert (finv L' st st2 [] st2) as Hinit.
@@ -389,7 +449,7 @@ Proof.
 Qed.
 
 Theorem mut_step_converges f st o n mu L :
-  tree st -> no_locks st -> overflow st = false -> (Phi st < f)%nat -> in_range st (o, n) ->
+  otree st -> no_locks st -> overflow st = false -> (Phi st < f)%nat -> in_range st (o, n) ->
   is_list_name n = true -> replayable_mut mu = true ->
   (forall y, reach st (o, n) y -> val st y = VL L) ->
   let st' := fst (step f st (Mut o n mu)) in
@@ -418,7 +478,7 @@ Proof.
     pose proof (replayable_event_int_index L mu l' ev Hmu Hm) as Hidx.
     assert (tpost l' s1 (forward f s1 o n ev) (o, n)) as (O' & F' & Hb & Hc).
     { apply (forward_spread L l').
-      - eapply tree_frame; [exact F1|eapply tree_frame; eassumption].
+      - eapply otree_frame; [exact F1|eapply otree_frame; eassumption].
       - exact Hov.
       - apply (NL1 (o, n)).
       - rewrite <- (Phi_frame _ _ F1), <- (Phi_frame _ _ F0). exact HPhi.
@@ -444,7 +504,7 @@ Proof.
     exists L. split.
     + intros y R. destruct (node_eq_dec y (o, n)) as [->|Hy]; [apply val_set_same; exact Hr|].
       rewrite val_set_other by exact Hy. apply Hall. exact R.
-    + intros y. destruct (node_eq_dec y (o, n)) as [->|Hy]; [right; constructor|left; apply val_set_other; exact Hy].
+    + intros y. destruct (node_eq_dec y (o, n)) as [->|Hy]; [right; constructor|left; rewrite val_set_other by exact Hy; apply V0].
   - (* the mutator raised: nothing happens *)
     split; [exact Hov|]. split; [exact F0|]. exists L. split; [intros y R; apply Hall; exact R|intros y; left; reflexivity].
 Qed.
@@ -465,7 +525,7 @@ Proof.
     subst st'. unfold step. change (get_val (clear_notes st) o n) with (get_val st o n). rewrite Vx. cbn [fst].
     split; [exact C|]. split; [exact Hov|apply clear_notes_frame].
   - assert (forall y, reach st (o, n) y -> val st y = VL L) as Hall by (apply component_agrees; [exact C|exact Vx]).
-    destruct (mut_step_converges f st o n mu L T NL Hov HPhi Hr Hk Hmu Hall) as (O' & F' & L'' & Hb & Hc).
+    destruct (mut_step_converges f st o n mu L (tree_otree _ T) NL Hov HPhi Hr Hk Hmu Hall) as (O' & F' & L'' & Hb & Hc).
     fold st' in O', F', Hb, Hc. split; [|split; assumption].
     intros a b He'. assert (edge st a b) as He by (eapply edge_frame; [apply same_frame_sym; exact F'|exact He']).
     destruct (Hc a) as [Ea|Ra]; destruct (Hc b) as [Eb|Rb].
@@ -514,3 +574,215 @@ Proof.
     destruct (IH st1 (tree_frame _ _ F1 T) C1 (no_locks_frame _ _ F1 NL) O1 P1 (ops_ok_frame _ _ _ F1 A)) as (Cf & Of & Ff).
     split; [exact Cf|]. split; [exact Of|eapply same_frame_trans; eassumption].
 Qed.
+
+(* ---------- the tree hypothesis is decidable: a sound boolean checker ---------- *)
+Lemma key_eqb_eq a b : key_eqb a b = true -> a = b.
+Proof.
+  unfold key_eqb. intros H. apply andb_prop in H. destruct H as [H1 H2].
+  apply Nat.eqb_eq in H1, H2. destruct a, b; cbn in *; congruence.
+Qed.
+Lemma key_eqb_refl a : key_eqb a a = true.
+Proof. unfold key_eqb. rewrite !Nat.eqb_refl. reflexivity. Qed.
+Lemma has_key_In z S : has_key z S = true <-> In z S.
+Proof.
+  unfold has_key. rewrite existsb_exists. split.
+  - intros (y & Hy & E). apply key_eqb_eq in E. subst. exact Hy.
+  - intros H. exists z. split; [exact H|apply key_eqb_refl].
+Qed.
+
+(* one round of the closure of S under the links, never entering u *)
+Definition expand (st : state) (u : node) (S : list node) : list node :=
+  fold_left (fun acc y => match partners st (fst y) (snd y) with
+                          | Some ps => fold_left (fun a z => if key_eqb z u || has_key z a then a else a ++ [z]) ps acc
+                          | None => acc
+                          end) S S.
+Fixpoint closure (k : nat) (st : state) (u : node) (S : list node) : list node :=
+  match k with O => S | Datatypes.S k' => closure k' st u (expand st u S) end.
+
+Definition closedb (st : state) (u : node) (S : list node) : bool :=
+  forallb (fun y => match partners st (fst y) (snd y) with
+                    | Some ps => forallb (fun z => key_eqb z u || has_key z S) ps
+                    | None => true
+                    end) S.
+
+Lemma closed_contains st u S p y :
+  closedb st u S = true -> In p S -> reachA st (fun z => z = u) p y -> In y S.
+Proof.
+  intros Hc Hp R. induction R as [|y z R IH (ps & Hps & Hin) Hz]; [exact Hp|].
+  unfold closedb in Hc. rewrite forallb_forall in Hc. specialize (Hc y IH). rewrite Hps in Hc.
+  rewrite forallb_forall in Hc. specialize (Hc z Hin). apply orb_prop in Hc. destruct Hc as [E|E].
+  - apply key_eqb_eq in E. contradiction.
+  - apply has_key_In. exact E.
+Qed.
+
+Fixpoint nodup_keys (l : list node) : bool :=
+  match l with [] => true | x :: r => negb (has_key x r) && nodup_keys r end.
+Lemma nodup_keys_sound l : nodup_keys l = true -> NoDup l.
+Proof.
+  induction l as [|x r IH]; cbn; [constructor|]. intros H. apply andb_prop in H. destruct H as [H1 H2].
+  constructor; [|apply IH; exact H2]. intros Hin. apply has_key_In in Hin. rewrite Hin in H1. discriminate.
+Qed.
+
+(* per (object, table entry): every check of [tree] *)
+Definition entryb (st : state) (o : oid) (e : name * list (oid * name)) : bool :=
+  let u := (o, fst e) in
+  let ps := snd e in
+  nodup_keys ps
+  && (negb (is_list_name (fst e)) || has (fst e) (o_att_i (get_obj st o)))
+  && forallb (fun y => Bool.eqb (is_list_name (snd y)) (is_list_name (fst e))
+                       && Nat.ltb (fst y) (length (objs st))
+                       && Nat.ltb (snd y) (length (o_vals (get_obj st (fst y))))) ps
+  && forallb (fun p1 => forallb (fun p2 =>
+         key_eqb p1 p2
+         || (let S := closure (length (objs st) * 4) st u [p1] in closedb st u S && negb (has_key p2 S))) ps) ps.
+
+Definition treeb (st : state) : bool :=
+  symmetricb st
+  && forallb (fun o => forallb (entryb st o) (o_info (get_obj st o))) (seq 0 (length (objs st))).
+
+Lemma treeb_sound st : treeb st = true -> tree st.
+Proof.
+  intros H. unfold treeb in H. apply andb_prop in H. destruct H as [Hsym Hall].
+  rewrite forallb_forall in Hall.
+  assert (forall u ps, partners st (fst u) (snd u) = Some ps -> entryb st (fst u) (snd u, ps) = true) as Hent.
+  { intros u ps Hp. pose proof (partners_in_range _ _ _ _ Hp) as Ho.
+    specialize (Hall (fst u) ltac:(apply in_seq; lia)). rewrite forallb_forall in Hall.
+    apply Hall. apply assoc_In. exact Hp. }
+  split.
+  - apply symmetricb_sound. exact Hsym.
+  - intros u p1 p2 (ps1 & Hp1 & Hin1) (ps2 & Hp2 & Hin2) Hne R.
+    rewrite Hp1 in Hp2. injection Hp2 as <-.
+    pose proof (Hent u ps1 Hp1) as He. unfold entryb in He. cbn [fst snd] in He.
+    apply andb_prop in He. destruct He as [_ He]. rewrite forallb_forall in He. specialize (He p1 Hin1).
+    rewrite forallb_forall in He. specialize (He p2 Hin2). apply orb_prop in He. destruct He as [E|E].
+    + apply key_eqb_eq in E. contradiction.
+    + cbn zeta in E. apply andb_prop in E. destruct E as [Hc Hn]. destruct u as [uo un]. cbn [fst snd] in *.
+      assert (In p2 (closure (length (objs st) * 4) st (uo, un) [p1])) as Hin.
+      { eapply closed_contains; [exact Hc| |exact R].
+        (* p1 is in the closure: the closure only grows *)
+        clear. generalize (length (objs st) * 4)%nat as k. intros k.
+        assert (forall k S, In p1 S -> In p1 (closure k st (uo, un) S)) as Hgrow.
+        { induction k0 as [|k0 IH]; intros S HS; [exact HS|]. cbn [closure]. apply IH.
+          unfold expand. assert (forall l acc, In p1 acc -> In p1 (fold_left (fun acc y => match partners st (fst y) (snd y) with
+                          | Some ps => fold_left (fun a z => if key_eqb z (uo, un) || has_key z a then a else a ++ [z]) ps acc
+                          | None => acc end) l acc)) as Hf.
+          { induction l as [|y l IHl]; intros acc Ha; cbn [fold_left]; [exact Ha|]. apply IHl.
+            destruct (partners st (fst y) (snd y)) as [ps|]; [|exact Ha].
+            revert acc Ha. induction ps as [|z ps IHp]; intros acc Ha; cbn [fold_left]; [exact Ha|].
+            apply IHp. destruct (key_eqb z (uo, un) || has_key z acc); [exact Ha|apply in_or_app; left; exact Ha]. }
+          apply Hf. exact HS. }
+        apply Hgrow. left. reflexivity. }
+      apply has_key_In in Hin. apply negb_true_iff in Hn. exact (eq_true_false_abs _ Hin Hn).
+  - intros u ps Hp. pose proof (Hent u ps Hp) as He. unfold entryb in He. cbn [fst snd] in He.
+    repeat (apply andb_prop in He; destruct He as [He ?]). apply nodup_keys_sound. exact He.
+  - intros u ps Hp Hk. pose proof (Hent u ps Hp) as He. unfold entryb in He. cbn [fst snd] in He.
+    repeat (apply andb_prop in He; destruct He as [He ?]). rewrite Hk in H1. exact H1.
+  - intros u y (ps & Hp & Hin). pose proof (Hent u ps Hp) as He. unfold entryb in He. cbn [fst snd] in He.
+    repeat (apply andb_prop in He; destruct He as [He ?]). rewrite forallb_forall in H0. specialize (H0 y Hin).
+    repeat (apply andb_prop in H0; destruct H0 as [H0 ?]). apply Bool.eqb_prop in H0. exact H0.
+  - intros u y (ps & Hp & Hin). pose proof (Hent u ps Hp) as He. unfold entryb in He. cbn [fst snd] in He.
+    repeat (apply andb_prop in He; destruct He as [He ?]). rewrite forallb_forall in H0. specialize (H0 y Hin).
+    repeat (apply andb_prop in H0; destruct H0 as [H0 ?]). apply Nat.ltb_lt in H2, H3. split; assumption.
+Qed.
+
+Fixpoint ops_okb (st : state) (ops : list op) : bool :=
+  match ops with
+  | [] => true
+  | Assign o n v :: r =>
+      wfb st v && kind_ok n v && Nat.ltb o (length (objs st)) && Nat.ltb n (length (o_vals (get_obj st o)))
+      && ops_okb st r
+  | Mut o n mu :: r =>
+      Nat.ltb o (length (objs st)) && Nat.ltb n (length (o_vals (get_obj st o)))
+      && is_list_name n && replayable_mut mu && ops_okb st r
+  | _ :: _ => false
+  end.
+Lemma ops_okb_sound st ops : ops_okb st ops = true -> ops_ok st ops.
+Proof.
+  induction ops as [|[o n v|o n mu| | |] r IH]; cbn; try discriminate; auto.
+  - intros H. repeat (apply andb_prop in H; let H' := fresh "H" in destruct H as [H H']).
+    apply Nat.ltb_lt in H2, H1. split; [apply wfb_sound; exact H|]. split; [exact H3|].
+    split; [split; assumption|apply IH; exact H0].
+  - intros H. repeat (apply andb_prop in H; let H' := fresh "H" in destruct H as [H H']).
+    apply Nat.ltb_lt in H, H3. split; [split; assumption|]. split; [exact H2|]. split; [exact H1|apply IH; exact H0].
+Qed.
+
+Theorem tree_histories_converge_checked fuel ops st :
+  treeb st = true -> consistentb st = true -> no_locksb st = true -> overflow st = false ->
+  Nat.ltb (Phi st) fuel = true -> ops_okb st ops = true ->
+  consistent (final fuel st ops) /\ overflow (final fuel st ops) = false /\ same_frame st (final fuel st ops).
+Proof.
+  intros T C NL Hov HPhi A. apply tree_histories_converge;
+    [apply treeb_sound|apply consistentb_sound|apply no_locksb_sound| |apply Nat.ltb_lt|apply ops_okb_sound]; assumption.
+Qed.
+
+(* ---------- checker for out-trees (one-way links allowed) ---------- *)
+Lemma closure_grows st u p : forall k S, In p S -> In p (closure k st u S).
+Proof.
+  induction k as [|k IH]; intros S HS; [exact HS|]. cbn [closure]. apply IH.
+  unfold expand.
+  assert (forall l acc, In p acc -> In p (fold_left (fun acc y => match partners st (fst y) (snd y) with
+              | Some ps => fold_left (fun a z => if key_eqb z u || has_key z a then a else a ++ [z]) ps acc
+              | None => acc end) l acc)) as Hf.
+  { induction l as [|y l IHl]; intros acc Ha; cbn [fold_left]; [exact Ha|]. apply IHl.
+    destruct (partners st (fst y) (snd y)) as [ps|]; [|exact Ha].
+    revert acc Ha. induction ps as [|z ps IHp]; intros acc Ha; cbn [fold_left]; [exact Ha|].
+    apply IHp. destruct (key_eqb z u || has_key z acc); [exact Ha|apply in_or_app; left; exact Ha]. }
+  apply Hf. exact HS.
+Qed.
+
+Definition oentryb (st : state) (o : oid) (e : name * list (oid * name)) : bool :=
+  let u := (o, fst e) in
+  let ps := snd e in
+  nodup_keys ps
+  && (negb (is_list_name (fst e)) || has (fst e) (o_att_i (get_obj st o)))
+  && forallb (fun y => Bool.eqb (is_list_name (snd y)) (is_list_name (fst e))
+                       && Nat.ltb (fst y) (length (objs st))
+                       && Nat.ltb (snd y) (length (o_vals (get_obj st (fst y))))) ps
+  && forallb (fun p1 => forallb (fun p2 =>
+         key_eqb p1 p2 || key_eqb p1 u || key_eqb p2 u
+         || (let S1 := closure (length (objs st) * 4) st u [p1] in
+             let S2 := closure (length (objs st) * 4) st u [p2] in
+             closedb st u S1 && closedb st u S2 && forallb (fun y => negb (has_key y S2)) S1)) ps) ps.
+
+Definition otreeb (st : state) : bool :=
+  forallb (fun o => forallb (oentryb st o) (o_info (get_obj st o))) (seq 0 (length (objs st))).
+
+Lemma otreeb_sound st : otreeb st = true -> otree st.
+Proof.
+  intros Hall. unfold otreeb in Hall. rewrite forallb_forall in Hall.
+  assert (forall u ps, partners st (fst u) (snd u) = Some ps -> oentryb st (fst u) (snd u, ps) = true) as Hent.
+  { intros u ps Hp. pose proof (partners_in_range _ _ _ _ Hp) as Ho.
+    specialize (Hall (fst u) ltac:(apply in_seq; lia)). rewrite forallb_forall in Hall.
+    apply Hall. apply assoc_In. exact Hp. }
+  split.
+  - intros u p1 p2 y (ps1 & Hp1 & Hin1) (ps2 & Hp2 & Hin2) Hne N1 N2 R1 R2.
+    rewrite Hp1 in Hp2. injection Hp2 as <-.
+    pose proof (Hent u ps1 Hp1) as He. unfold oentryb in He. cbn [fst snd] in He.
+    apply andb_prop in He. destruct He as [_ He]. rewrite forallb_forall in He. specialize (He p1 Hin1).
+    rewrite forallb_forall in He. specialize (He p2 Hin2). destruct u as [uo un]. cbn [fst snd] in *.
+    apply orb_prop in He. destruct He as [E|E].
+    + apply orb_prop in E. destruct E as [E|E]; [apply orb_prop in E; destruct E as [E|E]|];
+        apply key_eqb_eq in E; contradiction.
+    + cbn zeta in E. apply andb_prop in E. destruct E as [E Hd]. apply andb_prop in E. destruct E as [C1 C2].
+      assert (In y (closure (length (objs st) * 4) st (uo, un) [p1])) as I1
+        by (eapply closed_contains; [exact C1|apply closure_grows; left; reflexivity|exact R1]).
+      assert (In y (closure (length (objs st) * 4) st (uo, un) [p2])) as I2
+        by (eapply closed_contains; [exact C2|apply closure_grows; left; reflexivity|exact R2]).
+      rewrite forallb_forall in Hd. specialize (Hd y I1). apply negb_true_iff in Hd.
+      apply has_key_In in I2. exact (eq_true_false_abs _ I2 Hd).
+  - intros u ps Hp. pose proof (Hent u ps Hp) as He. unfold oentryb in He. cbn [fst snd] in He.
+    repeat (apply andb_prop in He; destruct He as [He ?]). apply nodup_keys_sound. exact He.
+  - intros u ps Hp Hk. pose proof (Hent u ps Hp) as He. unfold oentryb in He. cbn [fst snd] in He.
+    repeat (apply andb_prop in He; destruct He as [He ?]). rewrite Hk in H1. exact H1.
+  - intros u y (ps & Hp & Hin). pose proof (Hent u ps Hp) as He. unfold oentryb in He. cbn [fst snd] in He.
+    repeat (apply andb_prop in He; destruct He as [He ?]). rewrite forallb_forall in H0. specialize (H0 y Hin).
+    repeat (apply andb_prop in H0; destruct H0 as [H0 ?]). apply Bool.eqb_prop in H0. exact H0.
+  - intros u y (ps & Hp & Hin). pose proof (Hent u ps Hp) as He. unfold oentryb in He. cbn [fst snd] in He.
+    repeat (apply andb_prop in He; destruct He as [He ?]). rewrite forallb_forall in H0. specialize (H0 y Hin).
+    repeat (apply andb_prop in H0; destruct H0 as [H0 ?]). apply Nat.ltb_lt in H2, H3. split; assumption.
+Qed.
+
+(* for Examples: the component of x agrees on L, decided by the consistency checker *)
+Lemma component_agrees_checked st x L :
+  consistentb st = true -> val_eqb (val st x) (VL L) = true -> forall y, reach st x y -> val st y = VL L.
+Proof. intros C V. apply component_agrees; [apply consistentb_sound; exact C|apply val_eqb_true; exact V]. Qed.
